@@ -91,6 +91,20 @@ def cases(tier, rng):
                ["place_at", [["bare", "B"]], F(0)], ["place_at", [["bare", "B"]], F(1, 4)], ["set_item", 5, None], ["value_left"],
                ["remove_last"], ["remove_last"], ["remove_last"]]
         yield Case("bar.run", ["Eb", m[0], m[1], ops], "content", kind=("content", m))
+    # the content of a placement in every form the documentation allows (the harness builds nothing itself)
+    RAW = [(["str", "C"], [["C", 4]]), (["note", ["F#", 2]], [["F#", 2]]), (["strs", ["C", "E", "G"]], [["C", 4], ["E", 4], ["G", 4]]),
+           (["pairs", [["C", 5], ["E", 5]]], [["C", 5], ["E", 5]]), (["mixed", ["A", ["C", 6]]], [["A", 4], ["C", 6]]),
+           (["notes", [["D", 3], ["A", 3]]], [["D", 3], ["A", 3]]), (["pairs", [["Bb", 0]]], [["Bb", 0]]),
+           (["strs", ["G"]], [["G", 4]]), (["mixed", [["E", 2], "G"]], [["E", 2], ["G", 2]])]
+    for m in ((4, 4), (0, 0), (6, 8)):
+        for raw, want in RAW:
+            yield Case("bar.run", ["C", m[0], m[1], [["place", C_E, 4], ["place_raw", raw, 8]]], "content/raw-form", model=False,
+                       kind=("raw", want))
+    # assigning a rest (None) to an index: the entry becomes a rest, nothing else changes; assigning notes to a rest
+    for m in METERS:
+        ops = [["place", C_E, 4], ["place", [["obj", "D", 5]], 4], ["rest", 8], ["set_item", 0, None], ["set_item", 2, [["bare", "G"]]],
+               ["set_item", 1, None]]
+        yield Case("bar.run", ["C", m[0], m[1], ops], "content/rest-assigned", kind=("setrest", m))
     for cnt, unit in [(4, 4), (3, 8), (7, 16), (0, 0), (4, 3), (4, 0), (0, 4), (5, 6), (2, 1), (9, 128), (4, 12), (3, F(1, 2)), (-2, 4)]:
         yield Case("bar.run", ["C", 4, 4, [["set_meter", cnt, unit], ["place", C_E, 4]]], "set_meter", kind=("meter", cnt, unit))
         yield Case("bar.run", ["C", cnt, unit, [["place", C_E, 4]]], "ctor_meter", kind=("ctor", cnt, unit))
@@ -219,6 +233,12 @@ def oracle(c, obs):
             return "raised"
         # set_item / place_at change only that entry's content
         s0, s1, s2, s3, s4, s5 = obs[0], obs[1], obs[2], obs[3], obs[4], obs[5]
+        if any(isinstance(x, Err) for x in (s0, s1)):
+            m = kind[1]
+            fits = m[1] == 0 or F(1, 2) <= F(m[0]) / F(m[1])
+            return ("a placement that fits the bar raised or was lost" if fits else None)
+        if any(isinstance(x, Err) for x in (s2, s3, s4)):
+            return "assigning content to an existing index, or adding notes at an entry's beat, raised"
         e2 = s2[1][4]; e3 = s3[1][4]; e4 = s4[1][4]
         if [e[:2] for e in e2] != [e[:2] for e in s1[1][4]] or e2[1] != s1[1][4][1]:
             return "assigning content to an index changed something else"
@@ -226,6 +246,38 @@ def oracle(c, obs):
             return "assigned content is not the converted note container"
         if e4[0][2] != [["A", 4], ["C", 5], ["B", 5]] or e4[1] != e3[1]:
             return "adding notes at a beat did not change exactly that entry"
+        return None
+    if kind[0] == "raw":
+        if isinstance(obs, Err) or isinstance(obs[0], Err):
+            return "raised"
+        if isinstance(obs[1], Err):
+            return "placing notes given as %s raised %s (strings, notes and lists become note containers)" % (c["args"][3][1][1][0], obs[1].name)
+        r, st = obs[1]
+        ents = st[4]
+        if r is not True or len(ents) != 2:
+            return "a placement that fits was not accepted as one new entry"
+        if ents[1][1] != 8 or ents[1][2] != kind[1]:
+            return "the new entry does not hold the given value and the given notes (got %s)" % (ents[1][1:],)
+        return None
+    if kind[0] == "setrest":
+        if isinstance(obs, Err):
+            return "raised"
+        if any(isinstance(o, Err) for o in obs[:3]):
+            return None                                  # the meter did not take the three placements: nothing to assign to
+        before = obs[2][1][4]
+        if len(before) < 3:
+            return None
+        want = [list(e) for e in before]
+        for i, (idx, new) in enumerate([(0, None), (2, [["G", 4]]), (1, None)]):
+            st = obs[3 + i]
+            if isinstance(st, Err):
+                return "assigning content to an existing index raised"
+            want[idx] = [want[idx][0], want[idx][1], new]
+            if st[1][4] != want:
+                return "assigning %s to index %d did not change exactly that entry's content (None stays a rest)" % (
+                    "a rest" if new is None else "notes", idx)
+            if st[1][:4] != obs[2][1][:4]:
+                return "assigning content changed the bar's time accounting"
         return None
     if kind[0] == "placeat":
         if isinstance(obs, Err):
